@@ -630,3 +630,144 @@ func hasConsistencySource(info *types.Info, fd *ast.FuncDecl) bool {
 	}
 	return false
 }
+
+// ruleAuthzRequestsPinModel: every request the authorizer sends to the access-control store names the configured
+// store and the configured model; a request without the model id is evaluated against whatever model is latest
+// in the control store, so two gates (ListStores' filter and GetStore) can disagree.
+func ruleAuthzRequestsPinModel(e *Engine, r *Reporter) {
+	r.Rule("authz-requests-pin-model", "every Check/ListObjects request built in internal/authz carries the configured access-control store id and model id", 2)
+	n := 0
+	for _, fn := range e.Fns {
+		if short(pkgOf(fn)) != "internal/authz" {
+			continue
+		}
+		type lit struct{ store, model *ssa.Store }
+		lits := map[ssa.Value]*lit{}
+		var order []ssa.Value
+		eachInstr(fn, false, func(in ssa.Instruction) {
+			st, ok := in.(*ssa.Store)
+			if !ok {
+				return
+			}
+			fa, ok := st.Addr.(*ssa.FieldAddr)
+			if !ok || !strings.HasSuffix(typeBaseName(derefType(fa.X.Type())), "Request") {
+				return
+			}
+			l := lits[fa.X]
+			if l == nil {
+				l = &lit{}
+				lits[fa.X] = l
+				order = append(order, fa.X)
+			}
+			switch fieldName(fa.X.Type(), fa.Field) {
+			case "StoreId":
+				l.store = st
+			case "AuthorizationModelId":
+				l.model = st
+			}
+		})
+		for i, x := range order {
+			l := lits[x]
+			if l.store == nil {
+				continue
+			}
+			n++
+			tn := typeBaseName(derefType(x.Type()))
+			key := fmt.Sprintf("%s | %s #%d", fname(topLevel(fn)), tn, i)
+			okStore := strings.HasSuffix(describe_(l.store.Val), "config.StoreID")
+			okModel := l.model != nil && strings.HasSuffix(describe_(l.model.Val), "config.ModelID")
+			r.Check(okStore && okModel, key, e.instrPos(l.store), "configured store and model", fmt.Sprintf("the access-control request does not pin the configured store and model (store from config: %v, model from config: %v): it is answered from the latest model of the control store, which may grant what the configured policy does not", okStore, okModel))
+		}
+	}
+	if n == 0 {
+		blind("authz-requests-pin-model: no request literal found in internal/authz")
+	}
+}
+
+// ruleCancelIsNotEndOfData: storage.IterIsDoneOrCancelled folds "context cancelled" into "no more tuples".  The Check
+// engines may use it — a cancelled Check's partial result is discarded with the request — but a command that
+// *returns the collected set* (Expand, ListUsers, Read, ReadChanges, ListObjects' collectors) must see cancellation
+// as an error, or a deadline firing mid-read yields a truncated answer reported as success.
+func ruleCancelIsNotEndOfData(e *Engine, r *Reporter) {
+	r.Rule("cancel-is-not-end-of-data", "no function under pkg/server calls storage.IterIsDoneOrCancelled: the API commands end their read loops on ErrIteratorDone only and surface cancellation as an error", 0)
+	target := e.funcObjOpt("pkg/storage", "IterIsDoneOrCancelled")
+	if target == nil {
+		blind("cancel-is-not-end-of-data: storage.IterIsDoneOrCancelled not found")
+	}
+	for _, fn := range e.Fns {
+		if !strings.HasPrefix(short(pkgOf(fn)), "pkg/server") || isTestSupport(pkgOf(fn)) {
+			continue
+		}
+		ord := 0
+		eachInstr(fn, false, func(in ssa.Instruction) {
+			c, ok := in.(ssa.CallInstruction)
+			if !ok || calleeObj(c) != target {
+				return
+			}
+			r.Bad(fmt.Sprintf("%s | IterIsDoneOrCancelled #%d", fname(topLevel(fn)), ord), e.instrPos(in), "this command treats a cancelled context like the end of the data: when the request deadline fires while it reads, it returns the tuples collected so far as a complete, successful answer")
+			ord++
+		})
+	}
+	// the callers that exist today, by package (evidence of what the rule looked at)
+	pk := map[string]int{}
+	for _, cs := range e.CallSitesOf(target, false) {
+		pk[short(pkgOf(cs.Parent()))]++
+	}
+	var ks []string
+	for k, n := range pk {
+		ks = append(ks, fmt.Sprintf("%s×%d", k, n))
+	}
+	sort.Strings(ks)
+	r.OK("callers of storage.IterIsDoneOrCancelled", "", strings.Join(ks, " "))
+}
+
+// ruleDigestFedFramedBytes: outside the keys package a key digest is only ever fed the bytes of a keys.Builder, whose
+// encoding is tagged and length-prefixed.  Raw strings written into the digest one after another are not framed:
+// ["aa","bbcc"] and ["aabb","cc"] hash alike.
+func ruleDigestFedFramedBytes(e *Engine, r *Reporter) {
+	r.Rule("digest-fed-framed-bytes", "every Write/WriteString on a keys digest outside pkg/storage/cache/keys passes Builder.Bytes(): nothing unframed is mixed into a key's hash", 1)
+	n := 0
+	for _, fn := range e.Fns {
+		if isTestSupport(pkgOf(fn)) || pkgOf(fn) == keysPkg {
+			continue
+		}
+		ord := 0
+		eachInstr(fn, false, func(in ssa.Instruction) {
+			c, ok := in.(ssa.CallInstruction)
+			if !ok {
+				return
+			}
+			g := staticCallee(c)
+			if g == nil || g.Signature.Recv() == nil || pkgOf(canon(g)) != keysPkg || typeBaseName(g.Signature.Recv().Type()) != "Digest" {
+				return
+			}
+			if !strings.HasPrefix(g.Name(), "Write") || len(c.Common().Args) < 2 {
+				return
+			}
+			n++
+			d := describe_(c.Common().Args[1])
+			framed := strings.HasSuffix(d, ".Bytes()")
+			// a helper that receives the encoded bytes: framed when every call site passes Builder.Bytes()
+			if prm, ok := unwrap(c.Common().Args[1]).(*ssa.Parameter); ok && !framed {
+				idx := -1
+				for i, q := range prm.Parent().Params {
+					if q == prm {
+						idx = i
+					}
+				}
+				sites := e.allCallSites(prm.Parent())
+				framed = len(sites) > 0 && idx >= 0
+				for _, cs := range sites {
+					if idx >= len(cs.Common().Args) || !strings.HasSuffix(describe_(cs.Common().Args[idx]), ".Bytes()") {
+						framed = false
+					}
+				}
+			}
+			r.Check(framed, fmt.Sprintf("%s | digest.%s #%d", fname(topLevel(fn)), g.Name(), ord), e.instrPos(in), "fed "+d, "the digest is fed "+d+" directly: strings written back to back carry no length or tag, so different lists with the same concatenation share a key")
+			ord++
+		})
+	}
+	if n == 0 {
+		blind("digest-fed-framed-bytes: no digest write found outside the keys package")
+	}
+}
